@@ -23,6 +23,7 @@ func init() {
 			{ID: "C08.R5", Floor: 7, Run: c01r2, Text: "alloc ⇄ index for bulk rows (= C01.R2)"},
 			{ID: "C08.R6", Floor: 3, Run: c05r7, Text: "whole-handle comparison when skipping unchanged targets (= C05.R7)"},
 			{ID: "C08.R7", Floor: 3, Run: c03r5, Text: "batch range consumption (= C03.R5)"},
+			{ID: "C08.R8", Floor: 8, Run: c03r3, Text: "table selection siblings (= C03.R3): the table lists batch operations work on are selected under the same has-relation / active / matches conditions as query iteration"},
 		},
 	})
 }
